@@ -148,7 +148,9 @@ def listener_cmds(rng, u):
             {"ntf": "time", "when_rs": ["STARTED"], "cmd": some_cmd(False), "max": 2},
             {"ntf": "warmup", "when_rs": ["STARTED"], "cmd": some_cmd(False)},
             {"ntf": "start", "when_rs": ["STARTING", "STARTED"], "cmd": some_cmd(False), "max": 2},
-            {"ntf": "starting", "when_rs": ["STARTING"], "cmd": some_cmd(False), "max": 2}]
+            {"ntf": "starting", "when_rs": ["STARTING"], "cmd": some_cmd(False), "max": 2},
+            {"ntf": "startrepl", "when_cmd": list(RUNCMDS), "cmd": some_cmd(False)},
+            {"ntf": "stopping", "when_rs": ["STARTING", "STARTED"], "cmd": some_cmd(False), "max": 2}]
     return rng.sample(pool, rng.randint(1, 3))
 
 
@@ -336,6 +338,38 @@ def lost_stop(log):
     return None
 
 
+RUNCMDS = ("start", "runupto", "runuptoincl")
+# the (run state, replication state) a listener sees while each notification is delivered - part of the protocol:
+# a subscriber may read the states, and the states are what decides whether a command it issues is refused.
+# Keyed by notification and by the kind of command of the main thread that is in progress.
+VISIBLE = {
+    ("startrepl", "run"): ({"STARTING"}, {"INITIALIZED"}),     # start(): STARTING is set before anything is notified
+    ("startrepl", "step"): ({"INITIALIZED"}, {"INITIALIZED"}),
+    ("starting", "run"): ({"STARTING"}, {"STARTED"}),
+    ("start", "run"): ({"STARTING"}, {"STARTED"}),
+    ("start", "step"): ({"STARTED"}, {"STARTED"}),
+    ("time", "run"): ({"STARTED"}, {"STARTED"}), ("time", "step"): ({"STARTED"}, {"STARTED"}),
+    ("warmup", "run"): ({"STARTED"}, {"STARTED"}), ("warmup", "step"): ({"STARTED"}, {"STARTED"}),
+    ("stopping", "run"): ({"STARTING", "STARTED"}, {"STARTED"}), ("stopping", "step"): ({"STARTED"}, {"STARTED"}),
+    ("stop", "run"): ({"STOPPING"}, {"STARTED", "ENDING"}),
+    ("stop", "step"): ({"STARTED", "STOPPING"}, {"STARTED"}),
+    ("endrepl", "run"): ({"ENDED"}, {"ENDED"}), ("endrepl", "endrepl"): ({"ENDED"}, {"ENDED"}),
+}
+
+
+def visible_state(ent):
+    """None, or what is wrong with the states visible inside this notification"""
+    if len(ent) < 7:
+        return None
+    nm, rs_, ps_, cmd = ent[1], ent[4], ent[5], ent[6]
+    kind = "run" if cmd in RUNCMDS else cmd
+    want = VISIBLE.get((nm, kind))
+    if want is None or (rs_ in want[0] and ps_ in want[1]):
+        return None
+    return (f"{nm.upper()} delivered during {cmd}() while run state / replication state are {rs_} / {ps_}; "
+            f"the protocol prescribes {sorted(want[0])} / {sorted(want[1])} at that point")
+
+
 QSTATES = {("NOT_INITIALIZED", "NOT_INITIALIZED", 0), ("INITIALIZED", "INITIALIZED", 1),
            ("STOPPED", "STARTED", 1), ("ENDED", "ENDED", 0)}
 
@@ -403,6 +437,9 @@ def oracle(case, obs):
             bad = mon.feed(nm, ts)
             if bad:
                 return bad, facts
+            vs = None if case.get("rapid") else visible_state(ent)
+            if vs:
+                return ("state-visible-in-notification-wrong", vs), facts
             if nm == "time":
                 pending_tc = ts
                 max_t = ts if max_t is None else max(max_t, ts)
@@ -783,6 +820,16 @@ def overlap_scenarios(tier, known=()):
               "prog": [[["sched", ["abs", 4], 5, 1]], [["cmd", ["stop"]], ["cmd", ["init", 0, 0, 40]]]],
               "cmds": [init, ["start"]], "setup": [], "cmd": ["init", 0, 0, 40], "wpc": "handler, after its own stop()",
               "m2": False, "slow": True})
+    # --- a command while the run thread is inside its own cleanup(): under WARN_AND_END a failing handler makes the
+    #     run thread call cleanup() -> _stop_impl(), which waits its full second for the worker (itself); meanwhile
+    #     run state STOPPING counts as stopped and the replication is still STARTED.  Not in M2: oracle only.
+    for c in ((["init", 0, 0, 16], ["start"], ["cleanup"], ["stop"]) if tier != "quick" else (["init", 0, 0, 16],)):
+        S.append({"kind": "overlap", "name": f"warn-and-end-window-{c[0]}", "race": f"warn-and-end-window-{c[0]}",
+                  "clock": "float", "strategy": "end", "prog": [[["sched", ["abs", 4], 5, 1], ["sched", ["abs", 8], 5, 2]], [["fail"]], []],
+                  "setup": [init], "runcmd": ["start"], "gates": [{"at": ["exec", 0, 1], "until": ["never"], "timeout": 0.0}],
+                  "hold_gate": 0, "issue_when": ["rs", "STOPPING"], "issue_delay": 0.25, "cmd": c,
+                  "wpc": "run thread waiting inside its own cleanup()", "after": [], "m2": False, "slow": True,
+                  "detached": True})
     if tier != "quick" and SLOW_START_SIG in known:
         # a START subscriber that blocks for longer than the second start() waits: start() gives up and returns
         # in state STARTING, a stop() issued then is accepted and lost (Overlap: start_handshake_loose_refuted).
@@ -822,6 +869,8 @@ def overlap_oracle(sc, obs):
     mon.start = 0
     detached = False
     for ent in obs["log"]:
+        if ent[0] == "exec" and sc.get("detached"):
+            detached = True         # the failing handler's cleanup() drops the listeners: the stream is cut there
         if ent[0] == "ntf" and not detached:
             bad = mon.feed(ent[1], ent[2])
             if bad:
